@@ -1053,6 +1053,40 @@ package badger
 //@   assert[at-reserved-range] before call copy : arg1 == ret(Bytes#1) && uint32(start) + n == endOffset && endOffset == ret(Add#1) && n == uint32(ret(Len#2))
 //@   assert[size-published] before call Store : arg1 == endOffset
 
+// ---- value-log GC (C15, C33): what is moved, and when the old file goes ----
+
+// An entry of the old file is kept (moved) only if the LSM tree still holds exactly that
+// version, as a value pointer, and it is not an end-of-transaction marker.
+//@ func discardEntry
+//@   props C15
+//@   ensures[exact] result <==> (vs.Version != tsOf(e.Key) || vs.Meta&bitValuePointer == 0 || vs.Meta&bitFinTxn != 0)
+//@   assigns nothing
+
+// The per-entry step of a rewrite: deleted or expired entries are skipped; the LSM tree is asked
+// for the entry's own key; the entry is written back only when the pointer found there is this
+// file and this offset, with its meta (pointer and transaction bits cleared), user meta, expiry,
+// key and value as read from the file.
+//@ func (*valueLog).rewrite.fe
+//@   props C15 C33 C06
+//@   light
+//@   assert[expired-skipped] before call get : !ret(isDeletedOrExpired#1) && arg0 == vlog.db && arg1 == e.Key
+//@   assert[expiry-of-entry] before call isDeletedOrExpired : arg0 == e.meta && arg1 == e.ExpiresAt
+//@   assert[current-version-consulted] before call discardEntry : arg1 == ret0(get#1) && ret1(get#1) == nil
+//@   assert[pointer-from-lsm] before call Decode : arg1 == ret0(get#1).Value && !ret(discardEntry#1)
+//@   assert[moved-only-from-this-location] before call estimateSizeAndSetThreshold : arg0 == ne && vp.Fid == f.fid && vp.Offset == e.offset
+//@   assert[moved-entry-as-read] before call estimateSizeAndSetThreshold : ne.meta == e.meta &^ (bitValuePointer | bitTxn | bitFinTxn) && ne.UserMeta == e.UserMeta && ne.ExpiresAt == e.ExpiresAt && bytes(ne.Key) == bytes(e.Key) && bytes(ne.Value) == bytes(e.Value)
+
+// rewrite: compaction's discard point is pinned (GC clamp) before the scan starts; the moved
+// entries are written back before the old file is unregistered; the file is deleted at once only
+// when no iterator is open, otherwise its deletion is deferred.
+//@ func (*valueLog).rewrite
+//@   props C15
+//@   light
+//@   assert[clamp-before-scan] before call iterate : called(MaxVersion#1) && vlog.db.gcDiscardTs.v == ret(MaxVersion#1) && vlog.db.gcActive.v != 0 && arg0 == f
+//@   assert[written-back-before-unregister] before call Lock : called(iterate#1) && ret1(iterate#1) == nil
+//@   assert[immediate-delete-only-without-iterators] before call delete : ret(iteratorCount#1) == 0 && held(vlog.filesLock)
+//@   assert[delete-only-when-unregistered] before call deleteLogFile : arg1 == f && deleteFileNow
+
 // ---- reading log records back (C16) ----
 
 // safeRead.Entry: header, key and value pass through the hashing reader, the stored checksum
